@@ -424,7 +424,9 @@ void eng_run_history(void)
         if (cap1 > 400000) cap1 = 400000;
         if (chance(EP.p_cut)) cap1 = (long)rn(chance(50) ? 60 : 1500);    /* stop the stimulus at an arbitrary point: progress is then measured from a mid-flight state */
         bool quiet = false;
+        size_t sp_in = INPOS, sp_out = OUTN; long sp_since = 0;      /* stall detector (run time on broken trees only): nothing read or written for 3000 calls outside a hold -> go on to phase II, which judges progress */
         for (long i = 0; i < cap1; i++) {
+                if (INPOS != sp_in || OUTN != sp_out || HOLD_PHASE != 0) { sp_in = INPOS; sp_out = OUTN; sp_since = i; } else if (i - sp_since > 3000) break;
                 if (INPOS < INLEN && rn(1000) < EP.p_event_step) eng_trigger((int)rn(W.ncmds), chance(50) ? CAT_CMD_TYPE_READ : CAT_CMD_TYPE_TEST);
                 if (HOLD_PHASE == 1 && chance(3)) eng_hold_exit(eng_release_status());
                 else if (HOLD_PHASE == 2 && chance(20)) eng_hold_exit(eng_release_status());   /* repeated / conflicting request before it is consumed */
